@@ -47,7 +47,7 @@ theorem tanh_inverse_doc (y : ℝ) : Tanh.inverse ({} : NoParams ℝ) y = Real.a
 /-- LeakyTanh(max_val): tanh strictly inside `±max_val` … -/
 theorem leakytanh_doc_inside (m x : ℝ) (h : |x| < m) :
     (LeakyTanh.init m : LeakyTanh ℝ).transform x = Real.tanh x := by
-  unfold LeakyTanh.transform
+  rw [Leaves.leaky_transform_def]
   have : ¬ (LeakyTanh.init m : LeakyTanh ℝ).max_val ≤ |x| := not_le.mpr h
   simp [this]
 
@@ -58,7 +58,7 @@ theorem leakytanh_doc_above (m x : ℝ) (hm : 0 < m) (h : m ≤ x) :
       = Real.tanh m + (1 - Real.tanh m ^ 2) * (x - m) := by
   have hx : 0 < x := lt_of_lt_of_le hm h
   have habs : (LeakyTanh.init m : LeakyTanh ℝ).max_val ≤ |x| := by rw [abs_of_pos hx]; exact h
-  unfold LeakyTanh.transform
+  rw [Leaves.leaky_transform_def]
   simp only [RealInst.jabs_eq, ge_iff_le, habs, decide_true, RealInst.where_true, RealInst.jsign_pos hx]
   rw [Docs.leaky_linear_grad_eq, Docs.leaky_intercept_eq]; ring
 
@@ -69,7 +69,7 @@ theorem leakytanh_doc_below (m x : ℝ) (hm : 0 < m) (h : x ≤ -m) :
   have hx : x < 0 := by linarith
   have habs : (LeakyTanh.init m : LeakyTanh ℝ).max_val ≤ |x| := by
     rw [abs_of_neg hx]; show m ≤ -x; linarith
-  unfold LeakyTanh.transform
+  rw [Leaves.leaky_transform_def]
   simp only [RealInst.jabs_eq, ge_iff_le, habs, decide_true, RealInst.where_true, RealInst.jsign_neg hx]
   rw [Docs.leaky_linear_grad_eq, Docs.leaky_intercept_eq]; ring
 
